@@ -129,6 +129,8 @@ def explore(spec, *, procs=1, cap_states=2_000_000, max_depth=None, replay_n=50,
                             res.parent = parent
                             res.errors.append((errs, res.path_to(key) + [ai]))
                         res.error_transitions += 1
+                        if k2 not in parent:
+                            parent[k2] = (key, ai)     # known (graph post-processing may look it up) but never expanded
                         continue
                     if k2 not in parent:
                         parent[k2] = (key, ai)
